@@ -952,7 +952,9 @@ func serveFilter(f filters.Filter, spec filters.Spec, reqs []Req, obs *Obs, at s
 
 // StatDurations: request durations across (and beyond) the range of pkg/util/sampler.
 var StatDurations = []time.Duration{0, 1, time.Millisecond, 999 * time.Millisecond, time.Second, 10 * time.Second, 100 * time.Second,
-	256 * time.Second, 257 * time.Second, 258 * time.Second, 5 * time.Minute, time.Hour, 1000 * time.Hour, 1<<63 - 1, -1, -time.Hour}
+	256 * time.Second, 257 * time.Second, 258 * time.Second, 5 * time.Minute, time.Hour, 1000 * time.Hour, 1<<63 - 1}
+
+// (negative durations are not fed: the request path measures with a monotonic clock)
 
 // Settle gives goroutines spawned by a handler (mirror pool) a moment to run,
 // so that a crash is attributed to the case that caused it.
